@@ -1,2 +1,57 @@
-(** C08 - placeholder until the transducer theorems are stated (see Proofs/ReaderProofs.v). *)
-From VG Require Import Model.Reader.
+(** C08 - Results do not depend on how bytes are split across reads, writes, flushes.
+    Statements only; proofs in Proofs/StreamProofs.v, Proofs/ReaderProofs.v.
+
+    Proved: the stream primitives (io.ReadFull, io.CopyN, io.Copy through hardLimitReader),
+    readRequestMessage and the whole transformingReader see the client's body only as its byte
+    string [flat u]: any two bodies with the same bytes and the same terminal status - however
+    chunked, with or without io.EOF accompanying the last data - give the backend the same Reads.
+    Not proved here (named _partial): the same for envelopingReader, whose individual Reads mirror
+    the client's chunks (only their concatenation is invariant), and for the writers' independence
+    of the handler's Write segmentation.  Both are exercised by the correspondence suites
+    (reader: every chunking x every read size; segments: one response under several segmentations
+    must be identical). *)
+From VG Require Import Model.Bytes Model.Stream Model.Envelope Model.Reader.
+From VG Require Import Proofs.StreamProofs Proofs.ReaderProofs.
+Open Scope Z_scope.
+
+Theorem C08_read_full_chunking : forall fuel n u acc, (length (u_chunks u) < fuel)%nat ->
+  exists u', read_full fuel n u acc =
+               ((acc ++ ztake n (flat u), if n <=? zlen (flat u) then SOk else short_status (u_term u) (acc ++ flat u)), u') /\
+             flat u' = zdrop n (flat u) /\ u_term u' = u_term u /\ u_eof_last u' = u_eof_last u.
+Proof. exact read_full_spec. Qed.
+Print Assumptions C08_read_full_chunking.
+
+Theorem C08_copy_limit_chunking : forall limit u, -1 <= limit ->
+  exists u', copy_hard_limit limit u =
+               ((ztake (limit + 1) (flat u),
+                 if limit <? zlen (flat u) then SErr EResourceExhausted else end_status (u_term u)), u') /\
+             u_term u' = u_term u /\ u_eof_last u' = u_eof_last u /\ flat u' = zdrop (limit + 1) (flat u).
+Proof. exact copy_hard_limit_spec. Qed.
+Print Assumptions C08_copy_limit_chunking.
+
+Theorem C08_request_message_chunking : forall cx u u',
+  up_equiv u u' -> -1 <= limit cx -> -1 <= content_len cx ->
+  rmsg_equiv (read_request_message cx u) (read_request_message cx u').
+Proof. exact read_request_message_chunking. Qed.
+Print Assumptions C08_request_message_chunking.
+
+(** every Read of the backend on the re-encoding path, for one and the same sequence of buffer sizes *)
+Theorem C08_transforming_reader_chunking_partial : forall cx o rfuel, -1 <= limit cx -> -1 <= content_len cx ->
+  forall fuel ks u u', up_equiv u u' ->
+  tr_drain fuel rfuel cx o (tr_init u) ks = tr_drain fuel rfuel cx o (tr_init u') ks.
+Proof.
+  intros cx o rfuel Hl Hc fuel ks u u' Q. apply tr_drain_chunking; try assumption.
+  unfold tr_init. apply tr_equiv_mk. exact Q.
+Qed.
+Print Assumptions C08_transforming_reader_chunking_partial.
+
+(** Non-vacuity: three chunkings of one 9-byte gRPC body *)
+Definition ex_cx : rctx := mkRctx (Some GrpcC) (Some GrpcS) 100 (-1) false false false false true false.
+Definition ex_or : oracles := mkOr (fun b => Some b) (fun b => Some b) (fun b => Some (b ++ b)) (fun b => b) (fun _ => false).
+Definition ex_body := h "000000000461626364".
+Example C08_ex :
+  let run chunks eof := tr_drain 20 20 ex_cx ex_or (tr_init (mkUp chunks EEOF eof)) [3; 3; 3; 3; 3; 3; 3; 3] in
+  run [ex_body] false = run (map (fun b => [b]) ex_body) true /\
+  run [ex_body] false = run [firstn 2 ex_body; []; skipn 2 ex_body] false /\
+  length (run [ex_body] false) = 6%nat.
+Proof. vm_compute. repeat split; reflexivity. Qed.
